@@ -102,6 +102,19 @@ func (p *Prog) tokenFlow(fn *ssa.Function, bar *types.Var) (stateAt map[ssa.Inst
 						report(p.at(x) + ": the barrier is used in a select (not an accepted token idiom)")
 					}
 				}
+			case *ssa.Defer:
+				// a deferred closure that puts a channel back on the barrier (or closes it) releases
+				// the token when the function's deferred calls run
+				if g := deferredClosure(x); g != nil && releasesBarrier(g, bar) {
+					st |= 4
+				}
+			case *ssa.RunDefers:
+				if st&4 != 0 {
+					if st&1 != 0 && st&2 == 0 {
+						report(p.at(x) + ": a deferred release of the barrier runs without the token being held")
+					}
+					st = 1
+				}
 			case *ssa.Return:
 				if st&2 != 0 && b != fn.Recover {
 					report(p.at(x) + ": the function can return while still holding the barrier token (every later Wait/Set/Close blocks forever)")
@@ -372,7 +385,7 @@ func ruleR14(p *Prog) []Ob {
 		}
 		obs = append(obs, ob)
 
-		inToken := func(ins ssa.Instruction) bool { return stateAt[ins] == 2 }
+		inToken := func(ins ssa.Instruction) bool { return stateAt[ins]&3 == 2 }
 		received := func(v ssa.Value) bool {
 			ex, ok := v.(*ssa.Extract)
 			if !ok || ex.Index != 0 {
@@ -411,6 +424,23 @@ func ruleR14(p *Prog) []Ob {
 							closeBar = append(closeBar, x)
 						} else {
 							closesB = append(closesB, x)
+						}
+					}
+				}
+			}
+		}
+		for _, b := range fn.Blocks {
+			for _, ins := range b.Instrs {
+				d, ok := ins.(*ssa.Defer)
+				if !ok || !inToken(d) {
+					continue
+				}
+				if g := deferredClosure(d); g != nil {
+					for _, gb := range g.Blocks {
+						for _, gi := range gb.Instrs {
+							if sd, ok := gi.(*ssa.Send); ok && isFieldLoad(sd.Chan, bar) {
+								sends = append(sends, sd)
+							}
 						}
 					}
 				}
@@ -472,7 +502,7 @@ func ruleR14(p *Prog) []Ob {
 						}
 						upd, notUpd := iff.Block().Succs[updatedEdge], iff.Block().Succs[1-updatedEdge]
 						rt, isRet := terminator(upd).(*ssa.Return)
-						if isRet && !ea.isFailureReturn(fn, rt) && pureBlock(upd) && reachableFrom(notUpd)[sel.Block()] {
+						if isRet && !ea.isFailureReturn(fn, rt) && (pureBlock(upd) || onlyReleases(upd, bar)) && reachableFrom(notUpd)[sel.Block()] {
 							probeOK = true
 						}
 					}
@@ -605,4 +635,60 @@ func isCtxDone(v ssa.Value) bool {
 	}
 	pr, ok := c.Common().Value.(*ssa.Parameter)
 	return ok && typeIs(pr.Type(), "context", "Context")
+}
+
+// deferredClosure: the anonymous function a defer statement runs, if it is one.
+func deferredClosure(d *ssa.Defer) *ssa.Function {
+	switch v := d.Call.Value.(type) {
+	case *ssa.MakeClosure:
+		if g, ok := v.Fn.(*ssa.Function); ok {
+			return g
+		}
+	case *ssa.Function:
+		return v
+	}
+	return nil
+}
+
+// releasesBarrier: every path of g sends on / closes the barrier field exactly... at least once, and g
+// never receives from it.
+func releasesBarrier(g *ssa.Function, bar *types.Var) bool {
+	n := 0
+	for _, b := range g.Blocks {
+		for _, ins := range b.Instrs {
+			switch x := ins.(type) {
+			case *ssa.Send:
+				if isFieldLoad(x.Chan, bar) {
+					if len(g.Blocks) != 1 {
+						return false
+					}
+					n++
+				}
+			case *ssa.UnOp:
+				if x.Op == token.ARROW && isFieldLoad(x.X, bar) {
+					return false
+				}
+			}
+		}
+	}
+	return n == 1
+}
+
+// onlyReleases: apart from putting the token back the block does nothing before it returns.
+func onlyReleases(b *ssa.BasicBlock, bar *types.Var) bool {
+	for _, ins := range b.Instrs {
+		switch x := ins.(type) {
+		case *ssa.Send:
+			if !isFieldLoad(x.Chan, bar) {
+				return false
+			}
+		case *ssa.Return, *ssa.FieldAddr, *ssa.UnOp, *ssa.DebugRef:
+			if u, ok := x.(*ssa.UnOp); ok && u.Op == token.ARROW {
+				return false
+			}
+		default:
+			return false
+		}
+	}
+	return true
 }
